@@ -24,7 +24,10 @@ def batch_cpp(pats, first_index=0):
     auto rt = regex::dfa_match(rx%d.sm, match_options{}, source_point{}, buf.begin(), buf.end(), s);
     out[0] = rt.term_idx; out[1] = (uint32_t)rt.len; out[3] = (uint32_t)rx%d.sm.size(); out[4] = (uint32_t)rx%d.dfa_size;
     hv::use_stream us; out[2] = rx%d.match(buf, us) ? 1u : 0u; out[5] = us.acc;
-}''' % (k, k, k, k, k))
+}
+extern "C" __attribute__((noinline)) uint32_t k_tr_%d(uint32_t s, uint32_t c) { return rx%d.sm[s].transitions[c & 0xff]; }
+extern "C" __attribute__((noinline)) uint32_t k_acc_%d(uint32_t s) { return rx%d.sm[s].conflicted_recognition[0]; }
+extern "C" __attribute__((noinline)) uint32_t k_size_%d() { return (uint32_t)rx%d.sm.size(); }''' % (k, k, k, k, k, k, k, k, k, k, k))
     return '\n'.join(o) + '\n'
 
 def emit_ref(d, name):
@@ -99,6 +102,46 @@ int main(int argc, char** argv) {
 #endif
 '''
 
+TAB_HARNESS = '''#ifdef USE_REAL
+#error table harness is CBMC only
+#endif
+#include "%(unit_c)s"
+#include "rt.h"
+#include "check.h"
+%(tables)s
+#define NONE 65535u
+uint8_t nondet_uchar(void); uint32_t nondet_uint(void);
+uint32_t R; uint8_t C;
+static uint16_t H[NREAL]; static uint16_t Q[NREAL];
+/* Table-level equivalence: h maps every reachable state of the REAL automaton to a state of the reference minimal DFA (computed here by exploring
+   the real table from state 0); then for an ARBITRARY reachable state and byte the real transition must follow the reference one and acceptance must agree.
+   A homomorphism onto a complete minimal DFA that preserves acceptance means equal languages: strings of ANY length. */
+void harness(void) {
+  unsigned n = g_k_size_%(k)d();
+  __CPROVER_assert(n <= NREAL && n >= 1, "the automaton fits the statically computed size");
+  for (unsigned i = 0; i < NREAL; i++) H[i] = NONE;
+  H[0] = 0; Q[0] = 0; unsigned qn = 1;
+  for (unsigned qi = 0; qi < NREAL; qi++) {
+    if (qi >= qn) break;
+    unsigned r = Q[qi];
+    for (unsigned c = 0; c < 256; c++) {
+      unsigned t = g_k_tr_%(k)d(r, c);
+      if (t != NONE && t < NREAL && H[t] == NONE) { H[t] = REFD_tr[H[r]][REFD_cls[c]]; Q[qn] = (uint16_t)t; qn++; }
+    }
+  }
+  R = nondet_uint(); C = nondet_uchar();
+  __CPROVER_assume(R < n && H[R] != NONE);
+  unsigned t = g_k_tr_%(k)d(R, C), qq = REFD_tr[H[R]][REFD_cls[C]];
+#ifdef WITNESS_ON
+  WITNESS(t != NONE && R != 0, "interesting outcome reachable");
+#else
+  if (t == NONE) CHECK(REFD_dead[qq], "where the matcher has no transition, no string of the pattern's language continues that way");
+  else { CHECK(t < n, "transition target inside the automaton"); if (t < n) CHECK(H[t] == qq, "every transition of the matcher follows the reference automaton (so the languages agree on strings of ANY length)"); }
+  CHECK((g_k_acc_%(k)d(R) != NONE) == (REFD_acc[H[R]] != 0), "a state recognises the term exactly when the reference state is accepting");
+#endif
+}
+'''
+
 class RxCase:
     def __init__(self, batch, k, pat, cap, recorded=None):
         self.batch = batch; self.k = k; self.pat = pat
@@ -118,6 +161,14 @@ class RxCase:
                        expect='witness' if witness else 'hold', timeout=timeout, mem_gb=mem_gb, inputs=['IN', 'N'],
                        meta={'unit': 'rx:' + self.pat, 'pattern': self.pat, 'LMAX': b.lmax, 'complete_by_product_bound': self.complete, 'case': self, 'oracle': tag or 'ref'})
         return q
+    def table_query(self, timeout=600, mem_gb=8, witness=False):
+        """table-level equivalence with the reference DFA: complete for subject strings of any length"""
+        b = self.batch; nreal = max(dfa_size(self.ast), 2)
+        h = TAB_HARNESS % {'unit_c': os.path.basename(b.unit.c), 'tables': emit_ref(self.ref, 'REFD') + '#define NREAL %d\n' % nreal, 'k': self.k}
+        return vlib.Query('q_rx%d_tab%s' % (self.k, '_wit' if witness else ''), b.unit, h, bounds={}, fn_bounds={'harness': 258},
+                          default_unwind=max(258, nreal + 2), mode='functional', defines=['LMAX=%d' % b.lmax] + (['WITNESS_ON'] if witness else []),
+                          expect='witness' if witness else 'hold', timeout=timeout, mem_gb=mem_gb, inputs=['R', 'C'],
+                          meta={'unit': 'rx:' + self.pat, 'pattern': self.pat, 'kind': 'table', 'case': self, 'oracle': 'ref-table'})
     def run_native(self, inbytes):
         exe = self.batch.native.get(self.k)
         if not exe: return None
